@@ -104,6 +104,13 @@ def take_logs():
 # guarded calls
 
 
+class _KeepOpen(io.StringIO):
+    """stdout capture that survives the code under test closing its writer (sort closes sys.stdout)"""
+
+    def close(self):
+        pass
+
+
 class _Alarm(BaseException):
     pass
 
@@ -197,7 +204,7 @@ def guarded(fn, *args, _trigger_s=20.0, _budget=LINE_BUDGET, _capture_stdout=Fal
     from gaftools.cli import CommandLineError
 
     take_logs()
-    buf = io.StringIO() if _capture_stdout else None
+    buf = _KeepOpen() if _capture_stdout else None
 
     def attempt(traced):
         ctx = contextlib.redirect_stdout(buf) if buf is not None else contextlib.nullcontext()
